@@ -134,3 +134,36 @@ pub fn hs_iter_filter_min<'a, F: Fn(&&'a String) -> bool>(s: &'a HashSet<String>
             None => forall |y: &'a String| s@.contains(*y) ==> f.ensures((&y,), false),
         }
 { s.iter().filter(|x| f(x)).min() }
+
+// class S: HashMap::iter().filter(p).min_by_key(|(k, _)| *k): the accepted entry with the smallest key, None iff none is accepted
+#[verifier::external_body]
+pub fn hm_iter_filter_min_key<'a, V, F: Fn(&(&'a String, &'a V)) -> bool>(m: &'a HashMap<String, V>, f: F) -> (r: Option<(&'a String, &'a V)>)
+    requires forall |x: &(&'a String, &'a V)| #[trigger] f.requires((x,))
+    ensures
+        match r {
+            Some(kv) => m@.contains_key(*kv.0) && m@[*kv.0] == *kv.1 && f.ensures((&kv,), true)
+                && forall |k2: String| #[trigger] m@.contains_key(k2) ==> string_le(kv.0@, k2@) || f.ensures((&(&k2, &m@[k2]),), false),
+            None => forall |k2: String| #[trigger] m@.contains_key(k2) ==> f.ensures((&(&k2, &m@[k2]),), false),
+        }
+{ m.iter().filter(|x| f(x)).min_by_key(|(k, _)| *k) }
+
+// ks enumerates the entries of m exactly once each, in some order
+pub open spec fn seq_enumerates_map<V>(ks: Seq<(String, V)>, m: Map<String, V>) -> bool {
+    &&& ks.len() == m.len()
+    &&& ks.no_duplicates()
+    &&& forall |j: int| 0 <= j < ks.len() ==> m.contains_key((#[trigger] ks[j]).0) && m[ks[j].0] == ks[j].1
+    &&& forall |i: int, j: int| 0 <= i < j < ks.len() ==> (#[trigger] ks[i]).0 != (#[trigger] ks[j]).0
+}
+
+// class S: HashMap::into_iter() (no vstd model for hash_map::IntoIter): the entries, each exactly once, in the map's
+// (unspecified) iteration order. `for x in m.into_iter()` == `for x in m.into_iter().collect::<Vec<_>>()`.
+#[verifier::external_body]
+pub fn hm_into_vec<V>(m: HashMap<String, V>) -> (r: Vec<(String, V)>)
+    ensures seq_enumerates_map(r@, m@)
+{ m.into_iter().collect() }
+
+// class S: String::from(&str)
+#[verifier::external_body]
+pub fn string_from_str(s: &str) -> (r: String)
+    ensures r@ == s@
+{ String::from(s) }
